@@ -483,7 +483,6 @@ func (e *lbEngine) run(in *lbInst, entry *lstate) []lbRet {
 	e.visited[fn] = true
 	inState := map[*ssa.BasicBlock]*lstate{}
 	visits := map[*ssa.BasicBlock]int{}
-	entryKey := map[*ssa.BasicBlock]string{}
 	edge := map[[2]int]*lstate{} // (pred index, succ index) -> state
 	var rets []lbRet
 	saveRecord := e.record
@@ -494,7 +493,6 @@ func (e *lbEngine) run(in *lbInst, entry *lstate) []lbRet {
 	for i, b := range order {
 		rank[b] = i
 	}
-	dirty := map[*ssa.BasicBlock]bool{fn.Blocks[0]: true}
 	inState[fn.Blocks[0]] = entry
 	compute := func(b *ssa.BasicBlock) *lstate {
 		if b == fn.Blocks[0] && len(b.Preds) == 0 {
@@ -516,26 +514,10 @@ func (e *lbEngine) run(in *lbInst, entry *lstate) []lbRet {
 			ins = append(ins, entry)
 			zeros = append(zeros, nil)
 		}
-		// a loop head whose entry state changed starts its widening sequence afresh
 		hasBack := false
-		var ek strings.Builder
 		for _, p := range b.Preds {
 			if b.Dominates(p) {
 				hasBack = true
-				if edge[[2]int{p.Index, b.Index}] != nil {
-					ek.WriteString("r") // which back edges are reachable so far
-				} else {
-					ek.WriteString("u")
-				}
-				continue
-			}
-			ek.WriteString(edge[[2]int{p.Index, b.Index}].key())
-			ek.WriteString("#")
-		}
-		if hasBack {
-			if k := ek.String(); k != entryKey[b] {
-				entryKey[b] = k
-				visits[b] = 0
 			}
 		}
 		var restrict *lstate
@@ -546,6 +528,9 @@ func (e *lbEngine) run(in *lbInst, entry *lstate) []lbRet {
 			}
 		}
 		res := joinLin(e.at, ins, zeros, restrict)
+		if !hasBack {
+			res = res.prune(e.at) // only loop heads keep redundant facts (they may be what survives the next iteration)
+		}
 		if w := os.Getenv("VERIF_LB_WATCH"); w != "" && fmt.Sprintf("%s.b%d", fn.Name(), b.Index) == w && strings.Contains(e.context(), os.Getenv("VERIF_LB_WATCHCTX")) {
 			// watch the shape len(Buffer) - pos - (first int phi of the block)
 			for _, instr := range b.Instrs {
@@ -606,37 +591,79 @@ func (e *lbEngine) run(in *lbInst, entry *lstate) []lbRet {
 		}
 		return res
 	}
-	for iter := 0; iter < 4000; iter++ {
-		var b *ssa.BasicBlock
-		for _, c := range order {
-			if dirty[c] {
-				b = c
-				break
-			}
-		}
-		if b == nil {
-			break
-		}
-		dirty[b] = false
+	// Recursive iteration strategy: blocks in reverse post-order; a natural loop is stabilised (its head
+	// re-joined and its whole body re-interpreted, inner loops stabilised recursively) before anything
+	// after it is looked at, and every time a loop is entered its back-edge states are cleared and its
+	// widening sequence starts afresh — so the states joined at a head always belong to the same
+	// generation.
+	loops := naturalLoops(fn)
+	loopOf := map[*ssa.BasicBlock]*natLoop{}
+	for _, l := range loops {
+		loopOf[l.header] = l
+	}
+	process := func(b *ssa.BasicBlock) bool {
 		st := compute(b)
-		if visits[b] > 0 && st.key() == inState[b].key() {
-			continue
-		}
+		changed := visits[b] == 0 || st.key() != inState[b].key()
 		visits[b]++
 		inState[b] = st
+		if !changed {
+			return false
+		}
 		outs := e.execBlock(in, b, st, nil)
 		for si, s := range b.Succs {
-			k := [2]int{b.Index, s.Index}
 			var ns *lstate
 			if si < len(outs) {
 				ns = outs[si]
 			}
-			if edgeKey(edge[k]) != edgeKey(ns) || visits[b] == 1 {
-				edge[k] = ns
-				dirty[s] = true
+			edge[[2]int{b.Index, s.Index}] = ns
+		}
+		return true
+	}
+	var walk func(blocks []*ssa.BasicBlock)
+	var stabilise func(l *natLoop)
+	walk = func(blocks []*ssa.BasicBlock) {
+		skip := map[*ssa.BasicBlock]bool{}
+		for _, b := range blocks {
+			if skip[b] {
+				continue
 			}
+			if l := loopOf[b]; l != nil {
+				stabilise(l)
+				for x := range l.body {
+					skip[x] = true
+				}
+				continue
+			}
+			visits[b] = 0 // straight-line code: always (re)interpreted from the current edge states
+			process(b)
 		}
 	}
+	stabilise = func(l *natLoop) {
+		var body []*ssa.BasicBlock
+		for _, b := range order {
+			if l.body[b] && b != l.header {
+				body = append(body, b)
+			}
+		}
+		// fresh start: forget the back edges and the states of the previous entry
+		for _, b := range order {
+			if l.body[b] {
+				visits[b] = 0
+				for _, s := range b.Succs {
+					if l.body[s] {
+						delete(edge, [2]int{b.Index, s.Index})
+					}
+				}
+			}
+		}
+		for it := 0; it < 60; it++ {
+			if !process(l.header) && it > 0 {
+				break
+			}
+			walk(body)
+		}
+	}
+	walk(order)
 	// final pass: record obligations, collect returns
 	e.record = saveRecord
 	for _, b := range order {
@@ -894,6 +921,16 @@ func (e *lbEngine) phiAssign(in *lbInst, b, pred *ssa.BasicBlock, s *lstate) (*l
 	if out == nil {
 		return nil, nil
 	}
+	if os.Getenv("VERIF_LB_PHIDEBUG") == fmt.Sprintf("%s.b%d.b%d", in.fn.Name(), pred.Index, b.Index) {
+		var ds []string
+		for a := range drop {
+			ds = append(ds, e.at.name[a])
+		}
+		sort.Strings(ds)
+		elimDebug = os.Getenv("VERIF_LB_ELIMDEBUG")
+		defer func() { elimDebug = "" }()
+		fmt.Printf("LB PHI %s\n   drop %v\n   with eqs %s\n   eliminated %s\n", os.Getenv("VERIF_LB_PHIDEBUG"), ds, e.at.showState(out), e.at.showState(out.eliminate(e.at, drop)))
+	}
 	out = out.eliminate(e.at, drop)
 	out = out.renameAll(ren)
 	// zero terms: phi - (value on this edge), where the value does not itself mention a phi of b
@@ -1105,7 +1142,16 @@ func (e *lbEngine) execBlock(in *lbInst, b *ssa.BasicBlock, st *lstate, rets *[]
 			if x.Op == token.MUL && e.isPosAddr(in, x.X) {
 				a := e.atom(x)
 				e.at.prio[a] = 1
-				st = st.eliminate(e.at, map[atomID]bool{a: true}).eq(linAtom(a), linAtom(e.P))
+				st = st.eliminate(e.at, map[atomID]bool{a: true})
+				// the snapshot equals the cursor now: everything known about the cursor is stated for it as well,
+				// so that it stays known when the cursor moves on
+				var copies []lfact
+				for _, f := range st.f {
+					if f.g == 0 && f.l.coef(e.P) != 0 {
+						copies = append(copies, lfact{l: f.l.subst(e.P, linAtom(a))})
+					}
+				}
+				st = st.with(copies...).eq(linAtom(a), linAtom(e.P))
 			}
 		case *ssa.Store:
 			if e.isPosAddr(in, x.Addr) {
@@ -1186,6 +1232,26 @@ func (e *lbEngine) execBlock(in *lbInst, b *ssa.BasicBlock, st *lstate, rets *[]
 				le := linAtom(e.at.get("lastEnd", "end of the last token/comment", false))
 				e.requireAt(st, in.fn, x, "C13/R4", funcName(in.fn)+": on return the cursor is where the last token or comment ended",
 					[]string{"pos <= last End", "pos >= last End"}, []lin{le.sub(linAtom(e.P)), linAtom(e.P).sub(le)})
+				// the token has its position on every return, and its texts unless it is marked <bad>
+				has := func(name string) bool {
+					id, ok := e.at.byKey[ghostFieldKey{"Token", name}]
+					return ok && e.present(st, id)
+				}
+				bad := false
+				if id, ok := e.at.byKey[ghostFieldKey{"Token", "isBad"}]; ok {
+					bad = st.proves(e.at, lfact{l: linAtom(id).add(linConst(-1))})
+				}
+				for _, f := range []string{"Pos", "End", "RawLo", "SpaceLo"} {
+					if (f == "RawLo" || f == "SpaceLo") && bad {
+						continue
+					}
+					need := linConst(0)
+					if !has(f) {
+						need = linConst(-1)
+					}
+					e.requireAt(st, in.fn, x, "C13/R4", funcName(in.fn)+": on return Token."+strings.TrimSuffix(strings.TrimSuffix(f, "Lo"), "Hi")+" has been recorded (Space and Raw unless the token is <bad>)",
+						[]string{"the field is stored on this path"}, []lin{need})
+				}
 			}
 			if rets != nil {
 				*rets = append(*rets, lbRet{st: st, vals: x.Results, in: in})
@@ -1265,6 +1331,25 @@ func (e *lbEngine) execCall(in *lbInst, st *lstate, call *ssa.Call) *lstate {
 		}
 	}
 	st = st.eliminate(e.at, drop)
+	if bi, ok := com.Value.(*ssa.Builtin); ok && (bi.Name() == "min" || bi.Name() == "max") && len(com.Args) == 2 && isIntType(call.Type()) {
+		a, ok1 := e.linear(in, com.Args[0])
+		b, ok2 := e.linear(in, com.Args[1])
+		if ok1 && ok2 {
+			v := linAtom(e.atom(call))
+			// v = a when a <= b (min) / a >= b (max), else v = b: the join of the two cases
+			d := b.sub(a)
+			if bi.Name() == "max" {
+				d = a.sub(b)
+			}
+			s1 := st.with(lfact{l: d}).eq(v, a)
+			s2 := st.with(lfact{l: d.scale(-1)}).eq(v, b)
+			j := joinLin(e.at, []*lstate{s1, s2}, [][]lin{{v.sub(a)}, {v.sub(b)}}, nil).prune(e.at)
+			if e.trace && (e.record || (os.Getenv("VERIF_LB_MINDEBUG") != "" && strings.Contains(e.at.show(a), os.Getenv("VERIF_LB_MINDEBUG")))) {
+				fmt.Printf("LB MIN in %s\n   before %s\n   s1 %s\n   s2 %s\n   after %s\n", e.context(), e.at.showState(st), e.at.showState(s1), e.at.showState(s2), e.at.showState(j))
+			}
+			return j
+		}
+	}
 	if callee == nil {
 		if _, isBuiltin := com.Value.(*ssa.Builtin); !isBuiltin {
 			for _, a := range com.Args {
@@ -1374,6 +1459,12 @@ func (e *lbEngine) inline(in *lbInst, st *lstate, call *ssa.Call, callee *ssa.Fu
 			}
 		case isStringish(p.Type()):
 			ni.bindLen[p] = e.lenLin(in, a)
+		}
+	}
+	if e.trace && e.record && os.Getenv("VERIF_LB_CALLDEBUG") == callee.Name() {
+		fmt.Printf("LB CALL %s from %s: %s\n", callee.Name(), e.context(), e.at.showState(st))
+		for p, l := range ni.bindLin {
+			fmt.Printf("    %s := %s\n", p.Name(), e.at.show(l))
 		}
 	}
 	// frame rule: facts that mention neither the cursor nor an argument stay with the caller
@@ -1730,7 +1821,7 @@ func (e *lbEngine) ghostAtom(owner any, ownerName, field string) atomID {
 	return e.at.get(ghostFieldKey{owner, field}, ownerName+"."+field, false)
 }
 
-var tilingGhosts = []string{"Pos", "End", "RawLo", "RawHi", "SpaceLo", "SpaceHi"}
+var tilingGhosts = []string{"Pos", "End", "RawLo", "RawHi", "SpaceLo", "SpaceHi", "isBad"}
 
 func (e *lbEngine) dropGhosts(st *lstate, owner any) *lstate {
 	drop := map[atomID]bool{}
@@ -1804,6 +1895,16 @@ func (e *lbEngine) tilingStore(in *lbInst, stp **lstate, x *ssa.Store) bool {
 	}
 	field := fieldAddrName(fa)
 	fn := in.fn
+	if field == "Kind" && ownerName == "Token" {
+		// remember whether the token has been marked <bad> on this path
+		g := e.ghostAtom(owner, ownerName, "isBad")
+		st = st.eliminate(e.at, map[atomID]bool{g: true})
+		if k, ok := constString(x.Val); ok && k == "<bad>" {
+			st = st.eq(linAtom(g), linConst(1))
+		}
+		*stp = st
+		return true
+	}
 	eqOb := func(what string, a, b lin) {
 		e.requireAt(st, fn, x, "C13/R4", fmt.Sprintf("%s: %s.%s — %s", funcName(fn), ownerName, field, what),
 			[]string{"<=", ">="}, []lin{b.sub(a), a.sub(b)})
@@ -2036,7 +2137,7 @@ func verboseRule() string { return os.Getenv("VERIF_VERBOSE") }
 // ruleC14R8: comment scanning is exhaustive.
 func ruleC14R8(w *World, r *Report) {
 	const rule = "C14/R8"
-	r.rule(rule, "comment scanning is exhaustive: in (*Lexer).skipCommentUntil (interpreted from (*Lexer).skipComment in the LEXBOUNDS domain) every iteration of the search loop that continues has moved the cursor by exactly one byte, after testing for the terminator at the position it leaves, and the loop gives up without a match only when the terminator no longer fits between the cursor and the end of input — so a terminator at any position, including the very end, is found", 2)
+	r.rule(rule, "comment scanning is exhaustive: in (*Lexer).skipCommentUntil (interpreted from (*Lexer).skipComment in the LEXBOUNDS domain) every iteration of the search loop that continues has moved the cursor by exactly one byte, after testing for the terminator at the position it leaves, and the loop gives up without a match only when the terminator no longer fits between the cursor and the end of input — so a terminator at any position, including the very end, is found; and every index, slice and cursor move of the comment scanner stays within the input (a comment opener is skipped only as far as it was examined)", 8)
 	defer debug.SetGCPercent(debug.SetGCPercent(1000))
 	e := w.newLexBounds()
 	e.scanFns = map[string]bool{"skipCommentUntil": true}
@@ -2049,9 +2150,10 @@ func ruleC14R8(w *World, r *Report) {
 	e.runRoot(root, map[string]bool{"noPanic": false})
 	e.runRoot(root, map[string]bool{"noPanic": true})
 	for _, ob := range e.results() {
-		if ob.rule != rule {
+		if ob.rule != rule && ob.rule != "C03/R6" {
 			continue
 		}
+		// the index / slice / cursor bounds inside the comment scanner are part of this rule as well
 		if ob.failed == 0 {
 			r.ok(rule, ob.construct, ob.where, fmt.Sprintf("proved in %d context(s)", ob.total))
 		} else {
@@ -2138,7 +2240,7 @@ func ruleC15R5(w *World, r *Report) {
 // ruleC13R4: Space and Raw of the comments and of the token tile the input.
 func ruleC13R4(w *World, r *Report) {
 	const rule = "C13/R4"
-	r.rule(rule, "the texts recorded by (*Lexer).nextToken tile the input: every Space and Raw is a slice Buffer[a:b] of the input; a comment's or token's Space begins where the previous comment or token ended (the cursor at entry for the first one), Space ends where Raw begins, Pos is where Raw begins and End where it ends, and on every return the cursor is at the End last recorded — proved as equalities of linear terms over the cursor in the LEXBOUNDS domain (callees only move the cursor forward)", 8)
+	r.rule(rule, "the texts recorded by (*Lexer).nextToken tile the input: every Space and Raw is a slice Buffer[a:b] of the input; a comment's or token's Space begins where the previous comment or token ended (the cursor at entry for the first one), Space ends where Raw begins, Pos is where Raw begins and End where it ends, on every return the cursor is at the End last recorded and Pos, End, Space and Raw of the token have been stored (Space and Raw not for a token marked <bad>) — proved as equalities of linear terms over the cursor in the LEXBOUNDS domain (callees only move the cursor forward)", 8)
 	defer debug.SetGCPercent(debug.SetGCPercent(1000))
 	root := w.fn(w.Mem, "(*Lexer).nextToken")
 	if root == nil {
